@@ -71,6 +71,10 @@ func c12Body(e *Env) {
 		}
 		constant := 1 + pagesSpanned([]int{lastSz}, ps) + pagesSpanned([]int{lastAcked}, ps) + 2
 		bound := pagesSpanned(unacked, ps) + constant
+		if len(unacked) == 0 {
+			// everything ACKed: the bound is a constant independent of the traffic so far (no drift)
+			e.Probe("drift_checked")
+		}
 		if got := live(); got > bound {
 			e.Fail("C12", "space-bound", "%s: %d data pages in use, bound is %d (pages spanned by %d un-ACKed events) + %d (constant)", when, got, pagesSpanned(unacked, ps), len(unacked), constant)
 		}
